@@ -49,24 +49,43 @@ def make_typed_model():
     return Event, Jet
 
 
+def make_typed_model2():
+    "no class-level callback on the event: the first callback to fire is the one inside the nested lambda"
+    from func_adl import func_adl_callback
+
+    def cb_md(s, a):
+        return s.MetaData({"jetcb": 1}), a
+
+    class Jet:
+        @func_adl_callback(cb_md)
+        def pt(self, k: int = 2) -> float: ...
+
+    class Event:
+        def met(self, scale: float = 1.0) -> float: ...
+
+        def jets(self, kind: str = "def") -> Iterable[Jet]: ...
+
+    return Event, Jet
+
+
 # what a failing executor raises (by call number): includes the types a wrapper might mistake for its own
 EXC = (KeyError, TypeError, ValueError, AttributeError, StopIteration if False else RuntimeError)
 
 BODIES = {
     # item kind -> {op: lambda source}
-    "any": {"Select": "lambda e: e.x", "Where": "lambda e: e.x > 1", "SelectMany": "lambda e: e.ys",
+    "any": {"SelectSame": "lambda e: e.jets().Select(lambda j: j.pt())", "Select": "lambda e: e.x", "Where": "lambda e: e.x > 1", "SelectMany": "lambda e: e.ys",
             "Select2": "lambda e: (e.x, e.y)"},
-    "Event": {"Select": "lambda e: e.met()", "Where": "lambda e: e.met(2.0) > 1", "SelectMany": "lambda e: e.jets()",
+    "Event": {"SelectSame": "lambda e: e.jets().Select(lambda j: j.pt())", "Select": "lambda e: e.met()", "Where": "lambda e: e.met(2.0) > 1", "SelectMany": "lambda e: e.jets()",
               "Select2": "lambda e: e.jets().Select(lambda j: j.pt())"},
-    "Jet": {"Select": "lambda j: j.pt()", "Where": "lambda j: j.pt(k=3) > 1", "SelectMany": "lambda j: j.ys",
+    "Jet": {"SelectSame": "lambda e: e.jets().Select(lambda j: j.pt())", "Select": "lambda j: j.pt()", "Where": "lambda j: j.pt(k=3) > 1", "SelectMany": "lambda j: j.ys",
             "Select2": "lambda j: (j.pt(), j.eta())"},
-    "num": {"Select": "lambda v: v + 1", "Where": "lambda v: v > 1", "SelectMany": "lambda v: v.ys",
+    "num": {"SelectSame": "lambda e: e.jets().Select(lambda j: j.pt())", "Select": "lambda v: v + 1", "Where": "lambda v: v > 1", "SelectMany": "lambda v: v.ys",
             "Select2": "lambda v: (v, v)"},
 }
 
 
 class World:
-    def __init__(self, n_untyped=1, n_typed=1):
+    def __init__(self, n_untyped=1, n_typed=1, n_typed2=0):
         from func_adl import EventDataset
 
         world = self
@@ -93,8 +112,11 @@ class World:
             self.datasets.append(DS(len(self.datasets)))
         for i in range(n_typed):
             self.datasets.append(DS(len(self.datasets), self.Event))
+        self.Event2, self.Jet2 = make_typed_model2()
+        for i in range(n_typed2):
+            self.datasets.append(DS(len(self.datasets), self.Event2))
         self.streams = list(self.datasets)
-        self.mkind = ["any"] * n_untyped + ["Event"] * n_typed
+        self.mkind = ["any"] * n_untyped + ["Event"] * (n_typed + n_typed2)
         self.root = list(range(len(self.datasets)))
         self.parent = [None] * len(self.datasets)
         self.terminal = [False] * len(self.datasets)
@@ -158,8 +180,8 @@ class World:
     # ---------------------------------------------------------------- operations
     def derive_fn(self, name, k, op):
         "the derivation as a function of the source stream (applied to the stream and to its twin)"
-        if name in ("Select", "Where", "SelectMany", "Select2"):
-            meth = "Select" if name == "Select2" else name
+        if name in ("Select", "Where", "SelectMany", "Select2", "SelectSame"):
+            meth = "Select" if name in ("Select2", "SelectSame") else name
             return (lambda s: getattr(s, meth)(BODIES[k][name])), (name, "str"), False
         if name == "SelectAst":
             return (lambda s: s.Select(self.shared[k])), ("Select", "ast"), False
